@@ -21,7 +21,8 @@ CONSTANTS Graphs,      \* subset of DOMAIN GraphDefs
           ExhGraphs,   \* graphs whose emitting-only, edge-state instances are enumerated completely
           Moves,       \* subset of DOMAIN MoveDefs (transition terms)
           Debugs,      \* subset of BOOLEAN: package logger at DEBUG
-          EMIT
+          EMIT,
+          REUSE        \* TRUE: the matcher object may be reused for a fresh match() (expand = FALSE) at any point of a history
 
 VARIABLES I, cf, M, R, hist
 vars == <<I, cf, M, R, hist>>
@@ -90,7 +91,13 @@ Widen(w) == /\ hist # << >> /\ Len(hist) < MaxOps /\ cf.W # NoW /\ w > cf.W
             /\ LET cf2 == [cf EXCEPT !.W = w]  mr == DoMatch(I, cf2, M, M.n, TRUE) IN
                /\ M' = mr.M /\ R' = mr.R /\ cf' = cf2 /\ hist' = Append(hist, Obs(mr, "widen", w, w))
             /\ UNCHANGED I
-Next == \/ \E k \in 1..T : Match(k) \/ Extend(k)
+\* a fresh match() on a matcher object that has been used before: everything is rebuilt, nothing of the earlier calls may
+\* leak into the result (ReuseIsFresh)
+Rematch(k) == /\ REUSE /\ hist # << >> /\ Len(hist) < MaxOps
+              /\ LET mr == DoMatch(I, cf, M, k, FALSE) IN
+                 /\ M' = mr.M /\ R' = mr.R /\ hist' = Append(hist, Obs(mr, "match", k, cf.W))
+              /\ UNCHANGED <<I, cf>>
+Next == \/ \E k \in 1..T : Match(k) \/ Extend(k) \/ Rematch(k)
         \/ \E w \in 1..4 : Widen(w)
 Spec == Init /\ [][Next]_vars
 
@@ -142,6 +149,10 @@ C19noties == (OnlyMatch /\ ~cf.debug /\ NoTies(M.lat) /\ NoTies(FreshMatch(I, [c
 \* C10 / C16 at design level: reversing every neighbour list (listing order) leaves the canonical result unchanged
 RevI == [I EXCEPT !.nbrs = [n \in DOMAIN I.nbrs |-> Reverse(I.nbrs[n])]]
 C10order == OnlyMatch => Canon(FreshMatch(RevI, cf, M.n)) = Canon([M |-> M, R |-> R])
+
+\* a fresh call on a used matcher gives exactly what a new matcher gives
+ReuseIsFresh == (hist # << >> /\ hist[Len(hist)].op = "match") =>
+                  LET f == FreshMatch(I, cf, M.n) IN f.R = R /\ f.M.lat = M.lat /\ f.M.expandNow = M.expandNow
 
 \* ---- emission of behaviours for replay: one line per maximal or bounded history
 EmitBehaviour ==
